@@ -19,6 +19,8 @@ EXTRA = [
     ("pred", lambda f, c: isinstance(c.func, ast.Name) and c.func.id == "int" and len(c.args) >= 1 and not isinstance(c.args[0], ast.Constant)
      and f.module.name in ("transport",) and f.name in ("_check_banner",), ["ValueError"], "int() of text from the peer's banner"),
     ("pred", lambda f, c: _keyed_pop_without_default(f, c), ["KeyError"], "dict.pop(key) without a default under a key the peer chose"),
+    ("pred", lambda f, c: isinstance(c.func, ast.Attribute) and c.func.attr == "decompress" and f.module.name == "compress", ["zlib.error"],
+     "zlib's decompressobj.decompress raises zlib.error on data that is not a deflate stream (the peer's bytes)"),
 ]
 
 
@@ -177,6 +179,8 @@ def run(prog, chk):
         if f.qual == "Transport.run":
             return tables.get(unparse(call.func), [])
         t = unparse(call.func)
+        if t.endswith("__compress_engine_in"):
+            return ["ZlibDecompressor.__call__"]        # what set_inbound_compressor installs (Transport._compress_info)
         if t == "self.transport._key_info[algorithm]" or t == "self._key_info[self.host_key_type]":
             return ["%s.__init__" % k for k in ("RSAKey", "ECDSAKey", "Ed25519Key")]
         return []
@@ -386,3 +390,35 @@ def run(prog, chk):
             chk.ob("R4.method-resolves-on-typed-receiver", "%s:%s.%s" % (q, recv, meth), False, cg.funcs[q].loc,
                    "%s.%s(): class %s has no such method (AttributeError on the transport thread)" % (recv, meth, tcls))
     chk.ob("R4.method-resolves-on-typed-receiver", "closure", True, run_f.loc, "%d unresolved call(s) on typed receivers in the closure" % nun)
+
+    # ---- R6 handlers that need a context refuse when the context is missing --------------------------------------------
+    # NEWKEYS and SERVICE_ACCEPT are in the handler tables all the time; outside a key exchange / without a pending
+    # authentication request the state they work from is None.  The handler must test that state and raise an
+    # SSHException before it touches it.
+    def _guarded(fq, uses, tests):
+        ff = prog.func(fq)
+        fl_ = Flow(prog, ff, implicit=False)
+        targets = [n for n in fl_.cfg.nodes if n.id in fl_.live and n.ast is not None and n.kind in ("stmt", "cond", "return") and any(u in unparse(n.ast) for u in uses)]
+        if not targets:
+            raise AnalysisError(fq, "none of %s found" % (uses,))
+
+        def ge(s_, lab, d_):
+            nd = fl_.cfg.nodes[s_]
+            if nd.kind != "cond":
+                return False
+            t_ = unparse(nd.ast)
+            return any((t_ == txt and lab == arm) for (txt, arm) in tests)
+        ok_ = fl_.dominated(targets, guard_edge=ge)
+        raises = [r for r in fl_.nodes(lambda n: n.kind == "raise") if isinstance(r.ast, ast.Raise) and r.ast.exc is not None and
+                  any(k in unparse(r.ast.exc) for k in ("SSHException", "MessageOrderError", "ProtocolError"))]
+        return ok_ and bool(raises), ff.loc
+    okn, locn = _guarded("Transport._parse_newkeys", ("self._activate_inbound(",),
+                         [("self.kex_engine is None", "F"), ("self.kex_engine is not None", "T"), ("self.K is None", "F"), ("self.in_kex", "T"), ("not self.in_kex", "F")])
+    chk.ob("R6.handler-needs-its-context", "Transport._parse_newkeys", okn, locn,
+           "NEWKEYS outside a key exchange is refused with an SSHException before the new keys are derived (from K = None)")
+    oks, locs = _guarded("AuthHandler._parse_service_accept", ("add_string(self.username)",),
+                         [("self.username is None", "F"), ("self.username is not None", "T"), ("self.auth_method == ''", "F"), ("not self.auth_method", "F"),
+                          ("self.auth_event is None", "F"), ("self.auth_event is not None", "T")])
+    chk.ob("R6.handler-needs-its-context", "AuthHandler._parse_service_accept", oks, locs,
+           "SERVICE_ACCEPT without a pending authentication request is refused with an SSHException before a request is built from username = None")
+
